@@ -290,7 +290,7 @@ def main(tier, replay=None):
         chk.oblige("build:delta-with-hooks", False, out[-2000:])
         return chk.finish()
     vlib.build_native()
-    vlib.standard_proof_obligations(chk, "PropC01", gen_names=("counter", "merge"))
+    vlib.standard_proof_obligations(chk, "PropC01", gen_names=("counter", "merge", "submodule"))
     ok, out = vlib.build_vmodel()
     if not ok:
         chk.oblige("build:vmodel", False, out[-2000:])
@@ -316,6 +316,7 @@ def main(tier, replay=None):
         reals = list(ex.map(real, cases))
     mism = 0
     mism_conf = n_conf = 0
+    mism_sub = n_sub = 0
     for (kind, d, cfg), (rc, rows, err) in zip(cases, reals):
         lines = gdiff.diff_lines(d)
         chk.count(kind)
@@ -337,6 +338,19 @@ def main(tier, replay=None):
                 if mism_conf <= 2:
                     vlib.log("[C01] merge-conflict correspondence mismatch " + str(cfg.as_dict()) + ": " + bad + "\nINPUT:\n" + "\n".join(lines) +
                              "\nOUTPUT:\n" + "\n".join(rows))
+        if kind == "submodule" and rc == 0:
+            # correspondence with Submodule.v: the short-form rows of the output are exactly the rows the model writes
+            n_sub += 1
+            want_rows = []
+            for s_ in d["sections"]:
+                for h in s_["hunks"]:
+                    rep = vm.ask("submodule_run", "0", ",".join(vlib.hexs(k + t) for k, t in h["body"]))
+                    want_rows += [bytes.fromhex(e[2:]).decode() for e in rep.split("\t")[1].split(";") if e.startswith("M:")] if rep.startswith("OK\t") and len(rep) > 3 else []
+            got_rows = [x for x in rows if re.fullmatch(r"[0-9a-f]{12}\.\.[0-9a-f]{12}", x)]
+            if got_rows != want_rows:
+                mism_sub += 1
+                if mism_sub <= 2:
+                    vlib.log(f"[C01] submodule correspondence: model rows {want_rows} binary rows {got_rows}\nINPUT:\n" + "\n".join(lines))
         if m != rows:
             mism += 1
             if mism <= 2:
@@ -358,6 +372,8 @@ def main(tier, replay=None):
     chk.oblige("correspondence:state-machine-rows", mism == 0, f"{mism} of {len(cases)} diffs render differently from the model")
     chk.oblige("correspondence:merge-conflict-rows", mism_conf == 0,
                f"{mism_conf} of {n_conf} one-hunk conflict diffs render differently from the merge-conflict model")
+    chk.oblige("correspondence:submodule-short-form-rows", mism_sub == 0,
+               f"{mism_sub} of {n_sub} submodule streams show short-form rows different from the model's")
     chk.extra["traces_validated_against_impl"] = len(cases) - mism
     chk.assumptions = ["model scope: git two-way diffs, unified view, non-raw header styles; combined diffs (`diff --cc`) and plain `diff -u` streams are decided by the black-box token oracle alone (both tiers); merge-conflict regions: MergeConflict.v (region state machine; `clear()` and the marker strings regenerated from the source) compared with the binary's rows on one-hunk conflict diffs, and the token oracle on all of them",
                        "grapheme clusters = scalar values on the generator's alphabet"]
